@@ -233,6 +233,18 @@ def run_rules(ctx, F, A, X):
         ctx.violation("R-C04-LEFTOVER", "File::parse", (fb["span"]["file"], fb["span"]["line"], fb["def"]), "file parser loop must be guarded by input.is_empty()")
     # ---- SUFFIX contract on the real bodies (through the summaries of the totality analysis)
     check_suffix(ctx, F)
+    # ---- prescribed arities / field types / tags: the acceptance sets and tag tables of C03 are soundness conditions too
+    ctx.rule("R-C03-ARITY", "check_tlf of every type accepts exactly the specified (type, length) set (shared with C03)")
+    ctx.rule("R-C03-CHOICE", "tag tables incl. default arms and the time workaround equal the specification (shared with C03)")
+    for tname, (tyn, lo, hi) in SPEC_CHECK_TLF.items():
+        c03.accept_set(ctx, A, F, find_impl_body(F, SPT, "check_tlf", tname), "R-C03-ARITY", tname, [(tyn, lo, hi)])
+    c03.accept_set(ctx, A, F, find_impl_body(F, SPT, "check_tlf", "parser::common::Time"), "R-C03-ARITY", "parser::common::Time",
+                   [("ListOf", 2, 2), ("Unsigned", 4, 4)])
+    for nm in ("parser::complete::MessageBody", "parser::streaming::MessageBody"):
+        c03.check_choice(ctx, F, A, X, find_impl_body(F, SPT, "parse_with_tlf", nm), nm, "u32", dict(SPEC_BODY_TAGS), body_mode=True)
+    c03.check_choice(ctx, F, A, X, find_impl_body(F, SPT, "parse_with_tlf", "parser::common::ListType"), "parser::common::ListType",
+                     SPEC_LISTTYPE[0], {k: v[0] for k, v in SPEC_LISTTYPE[1].items()}, payload={k: v[1] for k, v in SPEC_LISTTYPE[1].items()})
+    c03.check_time(ctx, F, A, X)
     # ---- MSGTLF
     for nm in ("parser::complete::Message", "parser::streaming::MessageStart"):
         b = find_impl_body(F, SP, "parse", nm)
